@@ -6,8 +6,7 @@ LEVEL = 'proof'
 TRUSTED = ['forward-mode differentiation rules (+, -, *, constants) applied to the spec energy integral and the spec Hermite pieces',
            'adjoint-state theorem with zero multipliers (envelope theorem): when the right-hand side of the adjoint system vanishes, the total derivative is the direct part']
 ASSUMPTIONS = ['positive durations']
-UNDECIDED_CLAUSES = ['CubicSplineND analytic gradients (getEnergyGradTimes/InnerPoints/Boundary) are not under contract; the cubic partial gradients are',
-                     'getEnergyGrad() only assembles the three proved parts (frame/shape contract)']
+UNDECIDED_CLAUSES = ['getEnergyGrad() only assembles the three proved parts (frame/shape contract)']
 CLASSES = ['CubicSplineND', 'QuinticSplineND', 'SepticSplineND']
 
 
@@ -18,12 +17,12 @@ def tasks(tier):
             cfg = {'DIM': D}
             T.append(Task(cls, 'getEnergyPartialGradByCoeffs', 1, cfg))
             T.append(Task(cls, 'getEnergyPartialGradByTimes', 1, cfg))
-            if cls != 'CubicSplineND':
+            if True:
                 T.append(Task(cls, 'getEnergyGradTimes', 0, cfg))
                 for d in range(D):
                     T.append(Task(cls, 'getEnergyGradInnerPoints', 0, cfg, label='DIM=%d,coord=%d' % (D, d), gen_options={'focus': d}))
                     T.append(Task(cls, 'getEnergyGradBoundary', 0, cfg, label='DIM=%d,coord=%d' % (D, d), gen_options={'focus': d},
-                                  pins={'trajectory___num_coeffs_': 6 if cls.startswith('Quintic') else 8}))
+                                  pins={'trajectory___num_coeffs_': {'CubicSplineND': 4, 'QuinticSplineND': 6, 'SepticSplineND': 8}[cls]}))
     return T
 
 
